@@ -76,6 +76,38 @@ def _rec_sat(sd, node_id, graph, pivot, avoid_set):
     return res
 _as.symbolic_attractor_test = _rec_sat
 
+# ---- block expansion: record the is_clean decisions (candidate queries on block sub-diagrams) ----
+_BLOCK = {"main": None, "flags": []}
+_orig_nac = _sdm.SuccessionDiagram.node_attractor_candidates
+_orig_nas = _sdm.SuccessionDiagram.node_attractor_seeds
+def _rec_nac(self, node_id, compute=False, *a, **kw):
+    if _BLOCK["main"] is not None and id(self) != _BLOCK["main"]:
+        try:
+            r = _orig_nac(self, node_id, compute, *a, **kw)
+        except RuntimeError:
+            if not _BLOCK.get("inner"):
+                _BLOCK["flags"].append(False)
+            raise
+        if not _BLOCK.get("inner"):
+            _BLOCK["flags"].append(len(r) == 0)
+        return r
+    return _orig_nac(self, node_id, compute, *a, **kw)
+def _rec_nas(self, node_id, compute=False, *a, **kw):
+    if _BLOCK["main"] is not None and id(self) != _BLOCK["main"]:
+        _BLOCK["inner"] = True
+        try:
+            r = _orig_nas(self, node_id, compute, *a, **kw)
+            _BLOCK["flags"].append(len(r) == 0)
+            return r
+        except RuntimeError:
+            _BLOCK["flags"].append(False)
+            raise
+        finally:
+            _BLOCK["inner"] = False
+    return _orig_nas(self, node_id, compute, *a, **kw)
+_sdm.SuccessionDiagram.node_attractor_candidates = _rec_nac
+_sdm.SuccessionDiagram.node_attractor_seeds = _rec_nas
+
 def classify_exc(e):
     if isinstance(e, RuntimeError):
         return "raised:motiflimit" if "stable motifs" in str(e) else "raised:runtime"
@@ -153,7 +185,12 @@ def apply_real(sd, op, nm):
             os_ = "-" if nd["attractor_seeds"] is None else (str(len(nd["attractor_seeds"])) + ("s" if sknown else ""))
             tape = (oc, os_)
         elif k == "block":
-            r = str(sd.expand_block(find_motif_avoidant_attractors=op[1], size_limit=op[2], optimize_source_nodes=op[3], exact_attractor_detection=op[4])).lower()
+            _BLOCK["main"] = id(sd); _BLOCK["flags"] = []
+            try:
+                r = str(sd.expand_block(find_motif_avoidant_attractors=op[1], size_limit=op[2], optimize_source_nodes=op[3], exact_attractor_detection=op[4])).lower()
+            finally:
+                _BLOCK["main"] = None
+                tape = "".join("1" if f else "0" for f in _BLOCK["flags"]) or "-"
         elif k == "scc":
             r = str(sd.expand_scc(find_motif_avoidant_attractors=op[1])).lower()
         elif k == "aseeds":
@@ -198,6 +235,8 @@ def model_cmd(op, tape):
         return f"op skipmin {op[1]} {tape or '-'}"
     if k == "skiprem":
         return f"op skiprem {tape or '-'}"
+    if k == "block":
+        return f"block {int(op[1])} {int(op[3])} {opt(op[2])} {tape or '-'}"
     if k == "cands":
         return f"op cands {op[1]} {tape[0] if tape else '-'}"
     if k == "seeds":
@@ -274,6 +313,10 @@ def gen_history(rng, n, max_len=6, kinds=("expand", "bfs", "dfs", "min", "target
             h.append(("skiprem",))
         elif k in ("reclaim", "pickle"):
             h.append((k,))
+        elif k == "block":
+            h.append(("block", rng.random() < 0.7, lim(), rng.random() < 0.6, rng.random() < 0.15))
+        elif k == "blockplain":       # block expansion without source shortcuts (a "plain" expansion call)
+            h.append(("block", rng.random() < 0.7, lim(), False, False))
         elif k == "cands":
             h.append(("cands", rng.randint(0, 6), rng.random() < 0.7, rng.random() < 0.7))
         elif k == "seeds":
